@@ -404,3 +404,74 @@ Proof.
       destruct (has_capacity false _ _); cbn [negb] in H; [|injection H as <-; now left].
       rewrite <- denote_eq_fast, Ht in H. discriminate.
 Qed.
+
+(* ---------------------------------------------------------------- append to a permuted owned tensor *)
+(* any injective layout of the right shape, filled with the tensor's elements, denotes it *)
+Lemma filled_denotes (l2 : list dim) (t : tensor N) :
+  wf_tensor t -> shape_of l2 = t_shape t ->
+  may_have_internal_overlap false (shape_of l2) (strides_of l2) = false ->
+  denote (scatter (min_data_len l2) (off_list l2) (t_elems t)) (mkV 0 l2) = Some t.
+Proof.
+  intros Hw Hsh Hov. pose proof (no_overlap_NoDup l2 Hov) as Hnd.
+  rewrite <- (min_data_len_guard l2). rewrite denote_scatter; [|exact Hnd|].
+  - rewrite Hsh. now destruct t.
+  - rewrite length_off_list. unfold prod_sizes. rewrite Hsh. unfold wf_tensor in Hw. lia.
+Qed.
+
+Lemma shape_of_map_mkdim (shp : list N) (f : N -> N) :
+  shape_of (map (fun a => mkdim (nthN shp a 0) (f a)) (range (lenN shp))) = shp.
+Proof.
+  unfold shape_of. rewrite map_map. unfold mkdim. cbn [d_size snd].
+  symmetry. apply list_as_map.
+Qed.
+
+Theorem append_p_denotes st mode perm axis k cap rep st' t :
+  mdenote st = Some t -> apply_op false (OAppendP mode perm axis k cap rep) st = Ok st' ->
+  mdenote st' = Some t /\ ref_apply (OAppendP mode perm axis k cap rep) t (result_shape st') = Some t.
+Proof.
+  intros Ht H. unfold mdenote in *. cbn [apply_op ref_apply] in *.
+  set (dims := v_dims (m_view st)) in *.
+  pose proof (denote_shape _ _ _ Ht) as Hsh. fold dims in Hsh.
+  pose proof (denote_wf _ _ _ Ht) as Hw.
+  destruct (is_perm (ndim dims) perm) eqn:Hp; cbn [negb] in H; [|discriminate].
+  destruct (ndim dims <=? axis) eqn:Ea; [discriminate|]. apply N.leb_gt in Ea.
+  destruct (nthN (shape_of dims) axis 0 <? k) eqn:Ek; [discriminate|]. apply N.ltb_ge in Ek.
+  match type of H with
+  | context [has_capacity false ?c (set_size _ _ ?l)] => set (capacity := c) in *; set (l2 := l) in *
+  end.
+  destruct (has_capacity false capacity (set_size (N.to_nat axis) k l2)); cbn [negb] in H; [|discriminate].
+  destruct (has_capacity false capacity l2) eqn:Hc; cbn [negb] in H; [|discriminate].
+  rewrite <- denote_eq_fast, Ht in H. injection H as <-. cbn [m_store m_view].
+  assert (Hl2 : shape_of l2 = t_shape t).
+  { rewrite Hsh. unfold l2.
+    replace (ndim dims) with (lenN (shape_of dims)) by (unfold ndim, lenN; now rewrite shape_of_length).
+    apply shape_of_map_mkdim. }
+  split.
+  - apply andb_prop in Hc as [_ Hov]. apply negb_true_iff in Hov.
+    now apply filled_denotes.
+  - assert (Hr : rank t = ndim dims) by (unfold rank, ndim, lenN; now rewrite Hsh, shape_of_length).
+    rewrite Hr, Hp. apply concat_of_split; [exact Hw|now rewrite Hr|now rewrite Hsh].
+Qed.
+
+Theorem append_p_error st mode perm axis k cap rep e t :
+  mdenote st = Some t -> apply_op false (OAppendP mode perm axis k cap rep) st = Err e ->
+  e = InsufficientCapacity \/ ref_apply (OAppendP mode perm axis k cap rep) t (t_shape t) = None.
+Proof.
+  intros Ht H. unfold mdenote in *. cbn [apply_op ref_apply] in *.
+  set (dims := v_dims (m_view st)) in *.
+  pose proof (denote_shape _ _ _ Ht) as Hsh. fold dims in Hsh.
+  assert (Hr : rank t = ndim dims) by (unfold rank, ndim, lenN; now rewrite Hsh, shape_of_length).
+  rewrite Hr.
+  destruct (is_perm (ndim dims) perm) eqn:Hp; cbn [negb] in H; [|now right].
+  destruct (ndim dims <=? axis) eqn:Ea.
+  - right. apply N.leb_le in Ea. unfold ref_slice_axis at 1.
+    destruct (_ && _); [|reflexivity].
+    rewrite axis_sels_none; [reflexivity|]. rewrite Hsh, shape_of_length. unfold ndim, lenN in Ea. lia.
+  - destruct (nthN (shape_of dims) axis 0 <? k) eqn:Ek.
+    + right. apply N.ltb_lt in Ek. unfold ref_slice_axis at 1. rewrite Hsh.
+      replace ((0 <=? k) && (k <=? nthN (shape_of dims) axis 0)) with false; [reflexivity|].
+      symmetry. apply andb_false_intro2. now apply N.leb_gt.
+    + destruct (has_capacity false _ _); cbn [negb] in H; [|injection H as <-; now left].
+      destruct (has_capacity false _ _); cbn [negb] in H; [|injection H as <-; now left].
+      rewrite <- denote_eq_fast, Ht in H. discriminate.
+Qed.
